@@ -86,7 +86,10 @@ def rule_shape_table(ctx):
         if want == "nothing":
             ok = uniq == [((), (), "ok")]
         elif want == "refuse-if-namespace-empty":
-            ok = sorted(uniq, key=str) == sorted([((("empty", ("Field", "arg2.namespace"), True),), (), "err:PackageError::MissingRequiredField(PurlField::Namespace)"), ((("empty", ("Field", "arg2.namespace"), False),), (), "ok")], key=str)
+            # one emptiness test that speaks about parts.namespace (raw, or with the separators trimmed): true -> refuse, false -> accept
+            def ns_empty(c, pos):
+                return len(c) == 1 and c[0][0] == "empty" and c[0][2] is pos and "arg2.namespace" in str(c[0][1]) and (c[0][1][0] == "Field" or c[0][1][0] in ("Trim", "TrimStart", "TrimEnd") and c[0][1][1] == "/")
+            ok = len(uniq) == 2 and any(ns_empty(u[0], True) and u[1] == () and u[2] == "err:PackageError::MissingRequiredField(PurlField::Namespace)" for u in uniq) and any(ns_empty(u[0], False) and u[1] == () and u[2] == "ok" for u in uniq)
         elif want == "lowercase-name":
             ok = len(uniq) == 1 and uniq[0][0] == () and uniq[0][2] == "ok" and len(uniq[0][1]) == 1 and uniq[0][1][0][1] == ("arg", 2, "name") and uniq[0][1][0][0] == helpers.get("NuGet")
         elif want == "pypi-name":
